@@ -12,13 +12,16 @@ d = json.load(open(sys.argv[1]))
 prop = d['property']
 fam = {'C09': ('props.respfam', 'Trace_Responder'), 'C16': ('props.respfam', 'Trace_Responder'), 'C17': ('props.respfam', 'Trace_Responder'), 'C03': ('props.respfam', 'Trace_Responder'), 'C08': ('props.respfam', 'Trace_Responder'), 'C11': ('props.respfam', 'Trace_Responder'),
        'C12': ('props.respfam', 'Trace_Responder'), 'C10': ('props.querierfam', 'Trace_Querier'), 'C13': ('props.querierfam', 'Trace_Querier'),
-       'C04': ('props.cachefam', 'Trace_Cache'), 'C05': ('props.cachefam', 'Trace_Cache'), 'C06': ('props.cachefam', 'Trace_Cache')}[prop]
+       'C04': ('props.cachefam', 'Trace_Cache'), 'C18': ('props.lookupfam', 'Trace_Lookup'), 'C13L': ('props.lookupfam', 'Trace_Lookup'), 'C05': ('props.cachefam', 'Trace_Cache'), 'C06': ('props.cachefam', 'Trace_Cache')}[prop]
 mod = importlib.import_module(fam[0])
 sc = d['replay']['scenario']
 tr = mod.Recorder(sc).run()
 payload = {'own': 'ALL', 'dbg': 1, 'traces': [tr]}
 if 'voc' in tr:
     payload['vocab'] = tr.pop('voc')
+if prop == 'C18':
+    from props import c18
+    payload.update(c18.common('ALL'))
 if prop in ('C04', 'C05', 'C06'):
     payload['vocab'] = mod.vocab_json()
 res = tlc.run_oracle(fam[1], fam[1], payload, 'explain')
